@@ -24,6 +24,10 @@ type accSpec struct {
 	Ctor     int
 	ID       uint64 // 0 = automatic
 	Services []svcSpec
+	// RemoveAfter: after this accessory was added (or rejected), call RemoveAccessory on the accessory
+	// with this index in the composition (-1: none). Removing a rejected duplicate is what a cleanup path does.
+	RemoveAfter int
+	hasRemove   bool
 }
 
 type svcSpec struct {
@@ -36,9 +40,10 @@ type svcSpec struct {
 }
 
 type builtAcc struct {
-	spec   accSpec
-	acc    *accessory.Accessory
-	addErr error
+	spec    accSpec
+	acc     *accessory.Accessory
+	addErr  error
+	removed bool
 }
 
 // build constructs the composition from scratch and adds everything to a new container, in order.
@@ -82,7 +87,12 @@ func build(specs []accSpec) (*accessory.Container, []builtAcc, error) {
 			a.AddService(extras[j]) // accessory is complete before it is added to the container
 		}
 		err = cont.AddAccessory(a)
-		out = append(out, builtAcc{sp, a, err})
+		out = append(out, builtAcc{sp, a, err, false})
+		if sp.hasRemove && sp.RemoveAfter >= 0 && sp.RemoveAfter < len(out) {
+			victim := &out[sp.RemoveAfter]
+			cont.RemoveAccessory(victim.acc)
+			victim.removed = true
+		}
 	}
 	return cont, out, nil
 }
@@ -152,6 +162,12 @@ func check(specs []accSpec) error {
 	for i, b := range bs {
 		if b.addErr != nil && inCont[b.acc] {
 			return fmt.Errorf("accessory %d: AddAccessory returned %v but the accessory is in the container", i, b.addErr)
+		}
+		if b.removed {
+			if inCont[b.acc] {
+				return fmt.Errorf("accessory %d was removed but is still in the container", i)
+			}
+			continue
 		}
 		if b.addErr == nil && !inCont[b.acc] {
 			return fmt.Errorf("accessory %d: AddAccessory succeeded but the accessory is not in the container", i)
@@ -270,6 +286,9 @@ func genSpecs(t *rapid.T) []accSpec {
 			}
 			sp.Services = append(sp.Services, ss)
 		}
+		if i > 0 && rapid.IntRange(0, 5).Draw(t, "remove") == 0 {
+			sp.hasRemove, sp.RemoveAfter = true, rapid.IntRange(0, i).Draw(t, "removeWhich")
+		}
 		specs = append(specs, sp)
 	}
 	return specs
@@ -317,6 +336,9 @@ func TestC14Prop(t *testing.T) {
 			cls = append(cls, "accessories>=20")
 		}
 		for _, sp := range specs {
+			if sp.hasRemove {
+				cls = append(cls, "remove-accessory")
+			}
 			for _, ss := range sp.Services {
 				if ss.Custom && ss.CustomChars == 0 {
 					cls = append(cls, "service-without-characteristics")
@@ -351,6 +373,17 @@ func TestC14EveryConstructor(t *testing.T) {
 		if err := check(specs); err != nil {
 			stats.Fail("TestC14EveryConstructor", err.Error(), c.Name)
 			t.Errorf("%s with an empty custom service: %v", c.Name, err)
+		}
+	}
+	for _, specs := range [][]accSpec{
+		{{Ctor: 0, ID: 7}, {Ctor: 1, ID: 7, hasRemove: true, RemoveAfter: 1}, {Ctor: 2, ID: 7}},
+		{{Ctor: 0}, {Ctor: 1, ID: 1, hasRemove: true, RemoveAfter: 1}, {Ctor: 2, ID: 1}, {Ctor: 0}},
+		{{Ctor: 0}, {Ctor: 1, hasRemove: true, RemoveAfter: 0}, {Ctor: 2, ID: 1}, {Ctor: 0, ID: 1}},
+	} {
+		stats.Case(stats.Hash("remove", fmt.Sprint(specs)), true, []string{"remove-accessory"}, func() interface{} { return fmt.Sprintf("%+v", specs) })
+		if err := check(specs); err != nil {
+			stats.Fail("TestC14EveryConstructor", err.Error(), fmt.Sprint(specs))
+			t.Errorf("remove/re-add composition: %v", err)
 		}
 	}
 	for i, c := range registry.Services {
